@@ -5,10 +5,12 @@
 (* 1..Len(Trace) are visited as a 16-ary tree so that all workers share    *)
 (* the load.  The variables of Listener are BOUND to the recorded          *)
 (* projection:                                                             *)
-(*   k = "case": one datagram sent to listener R.srv from a fresh socket   *)
-(*               and every datagram that came back to that socket before   *)
-(*               the reply to the sentinel request sent right after it     *)
-(*               => hist = <<that event>>                                  *)
+(*   k = "case": one datagram sent to listener R.srv from a fresh socket,  *)
+(*               followed on the same socket (=> same listener socket, in  *)
+(*               order) by the sentinel, a well-formed request; everything *)
+(*               that came back before the sentinel's reply, and that reply*)
+(*               => hist = <<case event, sentinel event>>: a history of two*)
+(*               datagrams on one listener socket                          *)
 (*   k = "pair": one datagram with the forged source address of the other  *)
 (*               server; the packet counters of both servers afterwards    *)
 (*               => ninj = 1, nsent = datagrams received by A and by B     *)
@@ -25,7 +27,8 @@ Shapes    == {}
 Vias      == {}
 MaxInject == 0
 Spoof     == FALSE
-VARIABLES draft, net, hist, nsent, ninj, l
+RestoreAtTop == TRUE
+VARIABLES draft, net, hist, nsent, ninj, blen, l
 INSTANCE Listener
 
 Trace == ndJsonDeserialize("trace.ndjson")
@@ -37,18 +40,24 @@ DOf(R) == Dgram(R.tp, R.src, R.dst, IF R.tp = "scion" THEN R.sc ELSE NoSc, Paylo
 \* a datagram as received back
 OOf(R, o) == Dgram(R.tp, o.src, o.dst, IF R.tp = "scion" THEN o.sc ELSE NoSc, [b0 |-> o.b0, len |-> o.len, tr |-> o.tr, st |-> o.st])
 EvOf(R) == [srv |-> R.srv, d |-> DOf(R), out |-> [i \in DOMAIN R.out |-> OOf(R, R.out[i])]]
+\* the sentinel: same addressing, version 4 / mode 3, 48 bytes or a valid NTS request
+SentinelB0 == LVM(0, 4, 3)
+SEvOf(R) == [srv |-> R.srv,
+             d   |-> Dgram(R.tp, R.src, R.dst, IF R.tp = "scion" THEN R.sc ELSE NoSc, Payload(SentinelB0, R.slen, R.str)),
+             out |-> [i \in DOMAIN R.sout |-> OOf(R, R.sout[i])]]
 
-TInit == l = 0 /\ draft = Idle /\ net = << >> /\ hist = << >> /\ nsent = 0 /\ ninj = 0
+TInit == /\ l = 0 /\ draft = Idle /\ net = << >> /\ hist = << >> /\ nsent = 0 /\ ninj = 0
+         /\ blen = [x \in Servers \X {"ip", "scion"} |-> BufCap(x[2])]
 TNext ==
   /\ \E j \in 1 .. 16 : l' = 16 * l + j /\ l' <= N
   /\ LET R == Trace[l']
      IN IF R.k = "case"
-        THEN hist' = <<EvOf(R)>> /\ ninj' = 1 /\ nsent' = 1 + R.n
+        THEN hist' = <<EvOf(R), SEvOf(R)>> /\ ninj' = 2 /\ nsent' = 2 + R.n + R.sn
         ELSE IF R.k = "pair"
         THEN hist' = << >> /\ ninj' = 1 /\ nsent' = R.arecv + R.brecv
         ELSE hist' = << >> /\ ninj' = 0 /\ nsent' = 0
-  /\ UNCHANGED <<draft, net>>
-TSpec == TInit /\ [][TNext]_<<draft, net, hist, nsent, ninj, l>>
+  /\ UNCHANGED <<draft, net, blen>>
+TSpec == TInit /\ [][TNext]_<<draft, net, hist, nsent, ninj, blen, l>>
 
 R == Trace[l]
 IsCase == l > 0 /\ R.k = "case"
@@ -56,19 +65,19 @@ IsPair == l > 0 /\ R.k = "pair"
 
 \* ------------------------------------------------------------- monitor
 \* ReplyIffValid, ExactlyOne, ToSender, ReplyHeader, NeverAnswersReply,
-\* BoundedTraffic are Listener's own invariants, evaluated on the bound variables.
-\* every datagram that came back was turned into an element of R.out
-MCounted == IsCase => R.n = Len(R.out)
-\* the sentinel is itself a well-formed client request sent from the same
-\* socket: exactly one reply must reach that socket (decided after 3 attempts)
-MSentinel == IsCase => R.sn = 1
+\* HistoryIndependence, BoundedTraffic are Listener's own invariants, evaluated
+\* on the bound variables.  The sentinel event is judged like any other: it is a
+\* well-formed request, so exactly one reply must have reached its socket
+\* (R.sn = 0 is recorded only after 3 attempts from fresh sockets).
+\* every datagram that came back was turned into an element of R.out / R.sout
+MCounted == IsCase => (R.n = Len(R.out) /\ R.sn = Len(R.sout))
 \* over SCION the reply's path is, byte for byte, what slayers' Reverse()
 \* makes of the request's path (the projection in R.out[i].sc.path only keeps
 \* segment structure, direction flags, segment ids and ingress ids)
-MRawReverse == IsCase => \A i \in DOMAIN R.out : R.out[i].raw_ok
+MRawReverse == IsCase => ((\A i \in DOMAIN R.out : R.out[i].raw_ok) /\ (\A i \in DOMAIN R.sout : R.sout[i].raw_ok))
 
 \* -------------------------------------------------------------- strict
-SReplies == IsCase => EvOf(R).out = Replies(R.srv, DOf(R))
+SReplies == IsCase => \A k \in DOMAIN hist : hist[k].out = Replies(hist[k].srv, hist[k].d)
 SPredicted == IsCase => (R.exp = Len(Replies(R.srv, DOf(R))) /\ R.drop = DropStage(R.srv, DOf(R)))
 \* basic-mode origin echo, nothing else came back
 SEcho  == IsCase => \A i \in DOMAIN R.out : R.out[i].echo
